@@ -176,6 +176,28 @@ func VerifE2E_Concurrent() {
 	// region of the known finding C20-F1: the store write of a block that both
 	// requests traverse is slow
 	slowShared := false
+	// ... or, whatever the speeds, a block below both roots that must come
+	// from the responder while both requests share one deduplication scope:
+	// the responder sends its data once, and the request that only gets
+	// "present, already sent" may reach it before the other has stored it
+	if exts1 == nil {
+		for k := 2; k < n; k++ {
+			in0, in1 := false, false
+			for _, c := range dag.Kids[0] {
+				if c == k {
+					in0 = true
+				}
+			}
+			for _, c := range dag.Kids[1] {
+				if c == k {
+					in1 = true
+				}
+			}
+			if in0 && in1 && !local[k] {
+				slowShared = true
+			}
+		}
+	}
 	switch verifrt.Choose("slow-step", 3) {
 	case 1:
 		k := 2 + verifrt.Choose("slow-block", n-2)
@@ -190,7 +212,7 @@ func VerifE2E_Concurrent() {
 				in1 = true
 			}
 		}
-		slowShared = in0 && in1
+		slowShared = slowShared || (in0 && in1)
 		hit := false
 		w.Req.Store.OnCommit = func(i int) {
 			if i == k && !hit {
